@@ -314,6 +314,8 @@ func Kernel(g *G, thor bool) []Program {
 			}
 		}
 	}
+	// the division-by-10^k tables themselves (checked against the Granlund-Montgomery sufficient condition)
+	g.Emit(M{"op": "K.tables"})
 	// scalar kernels
 	edge := []string{"0", "1", "2", wordMax, "9999999999999999998", "5000000000000000000", "1000000000000000000", "8446744073709551616", "8446744073709551615", "4294967296"}
 	nsc := 400
